@@ -3809,6 +3809,10 @@ fn parse_group<'a>(
                 }
             }
         }));
+    } else {
+        // We found it, but possibly only after skipping over tokens that don't belong there. In
+        // that case, `expect_token_0!` has already described the first of them.
+        errors.append(&mut phony_errors);
     }
 
     // If we made it this far, we successfully parsed the group. Return the inner term.
